@@ -9,6 +9,7 @@ import (
 	"bytes"
 	"context"
 	"fmt"
+	"log/slog"
 	"net"
 	"runtime"
 	"strings"
@@ -18,7 +19,10 @@ import (
 
 	"cedarverif/harness/internal/bufpipe"
 
+	"github.com/PelicanPlatform/classad/classad"
 	"github.com/bbockelm/cedar/client"
+	"github.com/bbockelm/cedar/commands"
+	"github.com/bbockelm/cedar/message"
 	"github.com/bbockelm/cedar/security"
 	"github.com/bbockelm/cedar/server"
 	"github.com/bbockelm/cedar/stream"
@@ -35,6 +39,44 @@ func raceCliConf(cache *security.SessionCache, tag string) *security.SecurityCon
 	return &security.SecurityConfig{AuthMethods: toMethods([]string{"CLAIMTOBE"}), Authentication: security.SecurityOptional,
 		CryptoMethods: toCiphers([]string{"AES"}), Encryption: security.SecurityRequired, Integrity: security.SecurityOptional,
 		Command: raceCmd, SessionCache: cache, SecurityTag: tag}
+}
+
+// The shared-configuration workload uses MULTI-element method lists, in an order that is neither
+// ascending nor descending: a shallow copy (x := *cfg) shares the slices' backing arrays with the
+// caller's object, so any in-place reordering / element write by one handshake is a write to memory
+// every other handshake reads. (The server tries its own list in order and CLAIMTOBE is first; the
+// client never offers TOKEN, so the negotiated method stays CLAIMTOBE.)
+var (
+	raceSrvMethods = []string{"CLAIMTOBE", "TOKEN", "FS"}
+	raceCliMethods = []string{"FS", "CLAIMTOBE", "KERBEROS"}
+	// the server walks ITS list and takes the first cipher the client also lists: 3DES is not offered
+	// by the client, so AES is negotiated although it is first in neither list
+	raceSrvCiphers = []string{"3DES", "AES", "BLOWFISH"}
+	raceCliCiphers = []string{"BLOWFISH", "AES"}
+)
+
+func raceSrvConfMulti() *security.SecurityConfig {
+	c := raceSrvConf()
+	c.AuthMethods, c.CryptoMethods = toMethods(raceSrvMethods), toCiphers(raceSrvCiphers)
+	return c
+}
+
+func raceCliConfMulti(cache *security.SessionCache, tag string) *security.SecurityConfig {
+	c := raceCliConf(cache, tag)
+	c.AuthMethods, c.CryptoMethods = toMethods(raceCliMethods), toCiphers(raceCliCiphers)
+	return c
+}
+
+// cfgLists renders the two method lists of a configuration object (order matters).
+func cfgLists(c *security.SecurityConfig) string {
+	var a, k []string
+	for _, m := range c.AuthMethods {
+		a = append(a, string(m))
+	}
+	for _, m := range c.CryptoMethods {
+		k = append(k, string(m))
+	}
+	return strings.Join(a, ",") + " / " + strings.Join(k, ",")
 }
 
 func echoHandler(ctx context.Context, c *server.Conn) error {
@@ -86,12 +128,13 @@ func oneConn(addr string, sec *security.SecurityConfig, payload []byte) (resumed
 
 func wlHsShared(c *Ctx, out *raceWorkerOut) {
 	security.ClearSessionCache()
-	srvCfg := raceSrvConf()
+	srvCfg := raceSrvConfMulti()
+	srvLists0 := cfgLists(srvCfg)
 	srv := server.New(srvCfg)
 	srv.Handle(raceCmd, echoHandler)
 	// every other round the server selects a per-command policy from ONE shared object (the daemon
 	// pattern of server.SecurityConfigForCommand): the handshake must not write through it either
-	perCmd := raceSrvConf()
+	perCmd := raceSrvConfMulti()
 	var usePerCmd int32
 	srv.SecurityConfigForCommand = func(cmd int) *security.SecurityConfig {
 		if atomic.LoadInt32(&usePerCmd) == 1 {
@@ -119,8 +162,9 @@ func wlHsShared(c *Ctx, out *raceWorkerOut) {
 			atomic.StoreInt32(&usePerCmd, 0)
 		}
 		ccache := security.NewSessionCache()
-		shared := raceCliConf(ccache, "")     // ONE configuration object for every connection of this round
-		sharedT := raceCliConf(ccache, "TAG") // a second shared object: another tag => no cached session => fresh
+		shared := raceCliConfMulti(ccache, "")     // ONE configuration object for every connection of this round
+		sharedT := raceCliConfMulti(ccache, "TAG") // a second shared object: another tag => no cached session => fresh
+		cliLists0 := cfgLists(shared)
 		N := 4 + c.Rng.Intn(c.Pick(5, 13))
 		// phases: fresh (empty cache), resume (all ride the one cached session), mixed
 		for phase, name := range []string{"fresh", "resume", "mixed"} {
@@ -141,6 +185,12 @@ func wlHsShared(c *Ctx, out *raceWorkerOut) {
 						case <-stop:
 							return
 						default:
+						}
+						// the package-level entry points of session_manager.go as well
+						if (i+m)%3 == 0 {
+							security.InvalidateExpiredSessions()
+						} else if (i+m)%3 == 1 {
+							security.InvalidateSession(fmt.Sprintf("no-such-session-%d", i))
 						}
 						for _, ch := range []*security.SessionCache{ccache, security.GetSessionCache()} {
 							switch (i + m) % 4 {
@@ -204,6 +254,21 @@ func wlHsShared(c *Ctx, out *raceWorkerOut) {
 				out.count("hs-resume-phase-without-resumption")
 			}
 		}
+		// post-condition (handshakes do not disturb one another THROUGH the shared object): the
+		// configuration objects the caller shared are exactly as the caller left them — element
+		// order of the method lists included (a per-connection shallow copy shares their arrays)
+		for _, chk := range []struct {
+			who       string
+			now, then string
+		}{{"client", cfgLists(shared), cliLists0}, {"client(tagged)", cfgLists(sharedT), cliLists0}, {"server", cfgLists(srvCfg), srvLists0}, {"server(per-command)", cfgLists(perCmd), srvLists0}} {
+			if chk.now != chk.then {
+				out.violate(Violation{Property: "C17", Key: "C17:shared-config-mutated:" + chk.who,
+					What:     "after the simultaneous handshakes the shared configuration object's method lists differ from what the caller put there: a handshake wrote through the backing array its private (shallow) copy shares",
+					Ops:      []string{fmt.Sprintf("# round %d: goroutines call client.ConnectAndAuthenticateWithConfig(addr, shared config) at once against one server.Server (AuthMethods / CryptoMethods with 3 elements each)", rd)},
+					Expected: chk.then, Observed: chk.now})
+			}
+		}
+		out.eval(fmt.Sprintf("hs-shared:config-unchanged:%d", rd), true)
 	}
 }
 
@@ -359,5 +424,160 @@ func wlHsDet(c *Ctx, out *raceWorkerOut) {
 					"# cache.Lookup(S)"},
 				Expected: "S stays invalidated (Lookup misses)", Observed: fmt.Sprintf("Lookup(S) found=%v LookupByCommand found=%v", back, backCmd)})
 		}
+	}
+	wlSrvResumeInvalidate(c, out)
+}
+
+// schedHandler is a slog handler that runs `fire` at the k-th record logged while armed: every log
+// call the library makes is a schedule point at which another goroutine's operation can be placed
+// deterministically, without depending on what the record says.
+type schedHandler struct {
+	mu    sync.Mutex
+	armed bool
+	n     int
+	at    int
+	fire  func()
+}
+
+func (h *schedHandler) Enabled(context.Context, slog.Level) bool { return true }
+func (h *schedHandler) Handle(_ context.Context, _ slog.Record) error {
+	h.mu.Lock()
+	var f func()
+	if h.armed {
+		if h.n == h.at {
+			f = h.fire
+		}
+		h.n++
+	}
+	h.mu.Unlock()
+	if f != nil {
+		f()
+	}
+	return nil
+}
+func (h *schedHandler) WithAttrs([]slog.Attr) slog.Handler { return h }
+func (h *schedHandler) WithGroup(string) slog.Handler      { return h }
+
+// wlSrvResumeInvalidate: (3) the SERVER side of "no lost invalidations". A resumption request for
+// session S is being served; Invalidate(S) (an administrator, another goroutine) takes effect at a
+// chosen point between the server's lookup and the end of the resumption; afterwards S must be dead
+// in the server's cache — by Lookup and for the next resumption request — whether or not the
+// resumption in flight was still honoured. Two ways of placing the invalidation, neither of which
+// needs a hook in the library:
+//   (a) at the per-command policy callback (ServerConfigForCommand), which the server consults
+//       for a session established without authentication after it has looked the session up;
+//   (b) at every log record the server emits while serving the request (k = 0, 1, 2, …).
+func wlSrvResumeInvalidate(c *Ctx, out *raceWorkerOut) {
+	establish := func() (sid string, key []byte, ok bool) {
+		security.ClearSessionCache()
+		sc := raceSrvConf()
+		sc.Authentication = security.SecurityOptional
+		cc := raceCliConf(security.NewSessionCache(), "")
+		cc.Authentication = security.SecurityNever // the session is established WITHOUT authentication
+		cc.PeerName = "srvA"
+		p := realPair(cc, sc, "10.0.0.1:1111")
+		defer p.close()
+		if p.cerr != nil || p.serr != nil || p.sneg == nil || p.sneg.SessionId == "" {
+			out.Notes = append(out.Notes, "srv-resume-invalidate: setup handshake failed: "+errShort(p.cerr)+" / "+errShort(p.serr))
+			return "", nil, false
+		}
+		return p.sneg.SessionId, p.cneg.GetSharedSecret(), true
+	}
+	// serve one scripted resumption request (reply requested) for sid; `hook` may be installed as
+	// the per-command policy callback
+	serve := func(sid string, perCmd func(int) *security.SecurityConfig, before func()) (resumedOK bool) {
+		ca, cb := bufpipe.Pair("10.0.0.1:1111", "10.0.0.2:9618")
+		defer ca.Close()
+		defer cb.Close()
+		ctx, cancel := context.WithTimeout(context.Background(), 15*time.Second)
+		defer cancel()
+		cst := stream.NewStream(ca)
+		ad := classad.New()
+		_ = ad.Set("Command", raceCmd)
+		_ = ad.Set("UseSession", "YES")
+		_ = ad.Set("Sid", sid)
+		_ = ad.Set("ResumeResponse", true)
+		_ = ad.Set("RemoteVersion", security.DefaultRemoteVersion)
+		_ = ad.Set("CryptoMethods", "AES")
+		m := message.NewMessageForStream(cst)
+		_ = m.PutInt(ctx, commands.DC_AUTHENTICATE)
+		_ = m.PutClassAd(ctx, ad)
+		_ = m.FinishMessage(ctx) // buffered in the pipe: the server finds the whole request waiting
+		sst := stream.NewStream(cb)
+		sst.SetPeerAddr("10.0.0.1:1111")
+		sc := *raceSrvConf()
+		sc.Authentication = security.SecurityOptional
+		a := security.NewAuthenticator(&sc, sst)
+		a.ServerConfigForCommand = perCmd
+		if before != nil {
+			before()
+		}
+		_, err := a.ServerHandshake(ctx)
+		return err == nil
+	}
+	check := func(label, sid string, invalidated, resumedOK bool, ops []string) {
+		_, back := security.GetSessionCache().Lookup(sid)
+		again := serve(sid, nil, nil)
+		out.count("srv-resume-vs-invalidate:" + label)
+		out.eval("srv-resume-vs-invalidate:"+label, true)
+		if invalidated && (back || again) {
+			out.violate(Violation{Property: "C17", Key: "C17:lost-invalidation-server-resume",
+				What:     "Invalidate(S) took effect on the server's cache while the server was resuming S (after its lookup); when the resumption finished the session was in the cache again: the invalidation was lost",
+				Ops:      append(ops, "# afterwards: GetSessionCache().Lookup(S); a second resumption request for S"),
+				Expected: "S stays invalidated (Lookup misses, the next request is refused)", Observed: fmt.Sprintf("resumption in flight succeeded=%v; Lookup(S) found=%v; next request resumed=%v", resumedOK, back, again)})
+		}
+	}
+	// (a) the policy callback as the schedule point
+	for rep := 0; rep < c.Pick(2, 6); rep++ {
+		sid, _, ok := establish()
+		if !ok {
+			continue
+		}
+		invalidated := false
+		fired := 0
+		resumedOK := serve(sid, func(int) *security.SecurityConfig {
+			if fired == 0 {
+				invalidated = security.GetSessionCache().Invalidate(sid)
+			}
+			fired++
+			return nil
+		}, nil)
+		if fired == 0 {
+			out.count("srv-resume-vs-invalidate:callback-not-consulted")
+		}
+		check("callback", sid, invalidated, resumedOK, []string{"# session S established without authentication (server OPTIONAL, client NEVER)", "# scripted resumption request for S (reply requested) served by ServerHandshake", "# inside the server's ServerConfigForCommand callback (consulted after the lookup): GetSessionCache().Invalidate(S)"})
+	}
+	// (b) every log record of the server's resumption as a schedule point
+	prev := slog.Default()
+	defer slog.SetDefault(prev)
+	h := &schedHandler{}
+	slog.SetDefault(slog.New(h))
+	// dry run: how many records does serving one request emit?
+	records := 0
+	if sid, _, ok := establish(); ok {
+		h.mu.Lock()
+		h.armed, h.n, h.at, h.fire = true, 0, -1, nil
+		h.mu.Unlock()
+		serve(sid, nil, nil)
+		h.mu.Lock()
+		records, h.armed = h.n, false
+		h.mu.Unlock()
+	}
+	out.Dist["srv-resume-log-points"] = records
+	for k := 0; k < records && k < 24; k++ {
+		sid, _, ok := establish()
+		if !ok {
+			continue
+		}
+		invalidated := false
+		h.mu.Lock()
+		h.armed, h.n, h.at = false, 0, k
+		h.fire = func() { invalidated = security.GetSessionCache().Invalidate(sid) }
+		h.mu.Unlock()
+		resumedOK := serve(sid, nil, func() { h.mu.Lock(); h.armed = true; h.mu.Unlock() })
+		h.mu.Lock()
+		h.armed = false
+		h.mu.Unlock()
+		check("log-point", sid, invalidated, resumedOK, []string{"# session S established", "# scripted resumption request for S (reply requested) served by ServerHandshake", fmt.Sprintf("# at the %d-th log record the server emits while serving it: GetSessionCache().Invalidate(S)", k)})
 	}
 }
